@@ -7,7 +7,12 @@ import "time"
 // vpH_C13_T_follower: an instance (plain, or takeover-enabled candidate) starts next to a live record holding
 // arbitrary bytes written by an outside party: no panic, no unbounded recursion or loop, no leadership claim
 // over the foreign record except by legitimate preemption.
-func vpH_C13_T_follower() {
+func vpH_C13_T_follower() { vpC13Follower(false) }
+
+// thorough: the interfering rewrite is arbitrary bytes as well
+func vpH_C13_T_follower_arb() { vpC13Follower(true) }
+
+func vpC13Follower(arbRewrite bool) {
 	takeover := vpChoose("takeover", 2) == 1
 	vpSetOpt("rand-fixed", 1)
 	st := vpNewStore("g", 0)
@@ -28,9 +33,13 @@ func vpH_C13_T_follower() {
 			vpYield("env.rewrite") // schedulable at every store-operation leg of the start attempt (t=0)
 			if st.live() && st.writer != "a" {
 				// another party's well-formed payload with a symbolic priority
-				p1 := vpInt("prio1")
-				vpAssume(vpAnd(p1 >= 0, p1 <= 1000))
-				st.write("env:outsider2", "update", vpRecMk("x", "tok-x", p1), false, st.lastSeq)
+				if arbRewrite {
+					st.write("env:outsider2", "update", vpRec("r1"), false, st.lastSeq)
+				} else {
+					p1 := vpInt("prio1")
+					vpAssume(vpAnd(p1 >= 0, p1 <= 1000))
+					st.write("env:outsider2", "update", vpRecMk("x", "tok-x", p1), false, st.lastSeq)
+				}
 			}
 		}()
 	}
